@@ -20,7 +20,7 @@ from . import c20_pipe
 
 PID = 'C20'
 DRIVERS = ['rv'] + c20_pipe.DRIVERS
-MODULE = ['PymtlVerif.Props.C20', c20_pipe.MODULE]
+MODULE = ['PymtlVerif.Props.C20'] + c20_pipe.MODULES
 THEOREMS = ['PV.C20.' + t for t in [
   'decode_encode', 'encode_injective', 'decode_iff', 'encode_lt', 'decode_zero',
   'imm12_sign_extended', 'imm13_sign_extended',
@@ -380,6 +380,11 @@ def check_cksum(ck, n):
       ck.disagreement('Model.Cksum≈ex02_cksum', case, model[k], hex(want))
 
 #=========================================================================
+
+def pregen(ck):
+  """translator-based tie for the pipeline: regenerate lean/PymtlVerif/Gen/PipeGen.lean from the current ProcCtrlRTL / ProcDpathRTL /
+  MiscRTL sources (tools/py2lean_pipe.py); Props/C20pGen.lean then re-proves generated = Model/Pipe.lean"""
+  return c20_pipe.pregen(ck)
 
 def run(ck):
   quick = ck.tier == 'quick'
